@@ -129,7 +129,22 @@ def build_jobs(tier, rep):
                     k += 1
     if q and len(jobs) > 380000:
         jobs = gen.sample(jobs, 380000, C.SEED + 1)
+    must += [(cfgs[k % 3], d if k % 4 else d[:-1]) for k, d in enumerate(gen.fence_docs() + gen.container_tail_docs())]
     jobs += must
+    # the same blocks with CR / CRLF line ends (the line table is that of the NORMALISED input), mixed within a document too
+    enc = []
+    for k, (ck, d) in enumerate(must + [(cfgs[0], x) for x in gen.sample(short, 12000 if q else 120000, C.SEED + 4)]):
+        if "\n" not in d:
+            continue
+        if k % 3 == 0:
+            e = d.replace("\n", "\r")
+        elif k % 3 == 1:
+            e = d.replace("\n", "\r\n")
+        else:
+            parts = d.split("\n")
+            e = "".join(x + ("\r", "\n", "\r\n")[(k + j) % 3] for j, x in enumerate(parts[:-1])) + parts[-1]
+        enc.append((ck, e))
+    jobs += enc
     jobs += [(cfgs[k % len(cfgs)], d + ("\n" if k % 2 else "")) for k, d in enumerate(gen.sample(gen.l3_docs(), 50000 if q else 637602, C.SEED + 3, keep_short=800))]
     tw = gen.twins(gen.sample(pool, 20000 if q else 200000, C.SEED + 2, keep_short=1500), C.SEED, per_doc=2)
     jobs += [(cfgs[k % len(cfgs)], d) for k, d in enumerate(tw)]
